@@ -107,6 +107,12 @@ def gen_world(seed, wi, exome=False):
 def gen_plan(rng, tier, i, seed):
     cfg = TIERS[tier]
     route = ROUTES[i % len(ROUTES)]
+    if i % 48 == 5:
+        # the one parameter that is consumed while the input is read: which sample of a multi-sample VCF
+        given, exp = spell(rng, "int", 1, rng.random() < 0.5)
+        return {"w": gen_world(seed, i % cfg["worlds"]), "route": "vcf", "settings": [["vcf_sample_idx", given, exp, "int"]],
+                "options": [], "extra": None, "dashes": rng.random() < 0.5, "prior": False, "vcf_cli": rng.random() < 0.5,
+                "write_hashseed": 0, "read_hashseed": rng.choice([0, 1, 2, 3])}
     strings_only = route in ("cli", "dump", "profile_cli", "exome")
     names = rng.sample(sorted(PARAMS), rng.randint(1, 5))
     if route == "exome" and rng.random() < 0.6 and "min_coverage" not in names:
@@ -166,7 +172,7 @@ def execute(plan, runner, rundir):
               "route": plan["route"], "settings": plan["settings"], "options": plan["options"],
               "extra": plan["extra"], "dashes": plan["dashes"], "prior": plan.get("prior", False),
               "exome_name": plan.get("exome_name"), "exome_cli": plan.get("exome_cli"),
-              "extra_pos": plan.get("extra_pos")}
+              "extra_pos": plan.get("extra_pos"), "vcf_cli": plan.get("vcf_cli")}
     res = {}
     if plan["route"] in ("roundtrip", "dump", "options", "options_explicit", "profile_cli"):
         res["write"] = runner.segment(dict(common, kind="write", hashseed=plan["write_hashseed"]))
@@ -223,6 +229,19 @@ def judge(plan, outcome):
     malformed = plan["extra"] and plan["extra"][0] == "malformed"
     if plan["route"] == "profile_cli":
         return _judge_profile_cli(plan, outcome, env, malformed)
+    if plan["route"] == "vcf":
+        v = rd.get("vcf") or {}
+        given = plan["settings"][0][1]
+        if v.get("reference", [None])[0] != "ok":
+            return vs  # the shipped file could not be genotyped at all: nothing to compare with
+        if v["asked"] != v["reference"]:
+            vs.append(_v("parameter does not have the given value where it is used", name="vcf_sample_idx", given=given,
+                         expected_call=v["reference"][1], got=v["asked"], default_sample_call=v["default_of_two"][1:],
+                         **env))
+        if v["out_of_range"][0] != "exc" or not (v["out_of_range"][1] or {}).get("aldy"):
+            vs.append(_v("a sample index beyond the samples of the file was not refused with an error",
+                         given=given, got=v["out_of_range"], **env))
+        return vs
     if malformed:
         if not rd["rejected"]:
             vs.append(_v("malformed value was not rejected with an error", name=plan["extra"][1],
@@ -444,6 +463,8 @@ def run_segment(seg):
     # ---- read / run
     res = {"observed": {}, "rejected": None, "defaults": _profile_attrs(Profile("")), "forced": []}
     written = seg.get("written") or {}
+    if route == "vcf":
+        return _vcf_route(seg, rd, params, res)
     if route == "exome":
         # the shipped technology profile has an options section of its own: that is the baseline here
         from aldy.common import script_path
@@ -560,6 +581,71 @@ def run_segment(seg):
                 res["forced"] = ["display_format", "debug_probe", "debug_novel", "min_avg_coverage"]
     except AldyException as ex:
         res["rejected"] = O.exc_info(ex)
+    return res
+
+
+def _vcf_route(seg, rd, params, res):
+    """Two-sample VCF [REFONLY, NA07000] made from the shipped single-sample file; sample no. 1 is asked for.
+    The call must be the one the shipped file gives for its only sample, and sample no. 1 of the
+    single-sample file must be refused."""
+    import gzip
+
+    import pysam
+    from aldy.common import script_path
+
+    src = script_path("aldy.tests.resources/NA07000_SLCO1B1.vcf.gz")
+    two = os.path.join(rd, "two.vcf")
+    with gzip.open(src, "rt") as fi, open(two, "w") as fo:
+        for line in fi:
+            f = line.rstrip("\n").split("\t")
+            if line.startswith("##"):
+                fo.write(line)
+            elif line.startswith("#CHROM"):
+                fo.write("\t".join(f[:9] + ["REFONLY"] + f[9:]) + "\n")
+            else:
+                fo.write("\t".join(f[:9] + ["0/0"] + f[9:]) + "\n")
+    two = pysam.tabix_index(two, preset="vcf", force=True)
+
+    def run(path, p):
+        if seg.get("vcf_cli"):
+            argv = ["genotype", path, "--gene", "slco1b1", "--solver", "cbc"]
+            for k, v in p.items():
+                argv += ["--param", f"{k.replace('_', '-') if seg.get('dashes') else k}={v}"]
+            calls = []
+            import aldy.__main__ as M
+
+            orig = M.genotype
+            if hasattr(orig, "__wrapped__"):
+                orig = orig.__wrapped__
+
+            def wrapped(*a, **k):
+                try:
+                    r_ = orig(*a, **k)
+                    calls.append(["ok", [[kk, [x.get_major_diplotype() for x in vv]] for kk, vv in r_.items()]])
+                    return r_
+                except Exception as ex:
+                    calls.append(["exc", O.exc_info(ex)])
+                    raise
+
+            wrapped.__wrapped__ = orig
+            M.genotype = wrapped
+            try:
+                O.run_main(argv)
+            finally:
+                M.genotype = orig
+            return calls[-1] if calls else ["none", None]
+        rec = O.run_genotype("slco1b1", path, None, None, params=p)
+        raw = rec.pop("_raw", None)
+        if rec["exc"]:
+            return ["exc", rec["exc"]]
+        return ["ok", [[kk, [x.get_major_diplotype() for x in vv]] for kk, vv in (raw or {}).items()]]
+
+    res["vcf"] = {"reference": run(src, {}), "asked": run(two, params), "default_of_two": run(two, {}),
+                  "out_of_range": run(src, params)}
+    for c in SIM.stage_calls:
+        if c["stage"] == "estimate_cn":
+            res["observed"] = _profile_attrs(c["args"][0][1])
+    res["observed"] = {}
     return res
 
 
